@@ -117,6 +117,12 @@ def cmd_merge(db, crit_names, autoinc, items, objs, d9fixed=False):
 def run_merge(db, objs, crit_names, zoo=None):
     """list(db.merge(objs, criteria)) -> (outs | None, error name | None)"""
     crits = [crit_of(n, zoo) for n in crit_names]
+    # the accepted container forms of merge_criteria (interface.py L1610-1614): list, any iterable, a bare callable
+    form = len(objs) % 3
+    if form == 1:
+        crits = tuple(crits)
+    elif form == 2:
+        crits = crits[0] if len(crits) == 1 else (c for c in crits)
     try:
         return list(db.merge(objs, merge_criteria=crits)), None
     except Exception as ex:
